@@ -36,6 +36,10 @@ func genChunkedValue(t *rapid.T, keyLen int) []byte {
 		n = rapid.IntRange(1, 30).Draw(t, "small")
 	case 9:
 		n = rapid.IntRange(5, 20).Draw(t, "manyChunks")*p + rapid.IntRange(-1, 1).Draw(t, "off")
+		if rapid.IntRange(0, 3).Draw(t, "hundreds") == 0 {
+			// chunk numbers of three digits, beyond 255
+			n = rapid.SampledFrom([]int{100, 255, 256, 257, 300}).Draw(t, "chunks")*p + rapid.IntRange(-1, 1).Draw(t, "off")
+		}
 	default:
 		n = rapid.IntRange(0, 4).Draw(t, "k")*p + rapid.IntRange(-1, 1).Draw(t, "off")
 	}
@@ -76,7 +80,11 @@ func TestC04(t *testing.T) {
 				k := rapid.SampledFrom(keys).Draw(t, "damageKey")
 				if it := model.Live(k, now); it != nil {
 					nchunks := (len(it.Value) + chunkPayload(len(k)) - 1) / chunkPayload(len(k))
-					mask := rapid.IntRange(1, 1<<uint(nchunks+1)-1).Draw(t, "damageMask")
+					nb := nchunks + 1
+					if nb > 20 {
+						nb = 20 // the loop below looks at metadata and the first 19 chunks only
+					}
+					mask := rapid.IntRange(1, 1<<uint(nb)-1).Draw(t, "damageMask")
 					var names []string
 					for b := 0; b <= nchunks && b < 20; b++ {
 						if mask&(1<<uint(b)) != 0 {
